@@ -212,6 +212,47 @@ fn main() {
         }
         std::process::exit(0);
     }
+    if id == "export-plain" {
+        // plv export-plain <Cxx> <quick|thorough> <out.json> : histories for the replay on the unhooked build
+        let prop = args[2].as_str();
+        let tier = if args.get(3).map(|s| s.as_str()) == Some("thorough") { Tier::Thorough } else { Tier::Quick };
+        let hc = match prop {
+            "C01" => &checks::hist::C01,
+            "C02" => &checks::hist::C02,
+            "C06" => &checks::hist::C06,
+            "C07" => &checks::hist::C07,
+            _ => {
+                eprintln!("export-plain: no history check for {prop}");
+                std::process::exit(2)
+            }
+        };
+        let seed = std::env::var("VERIF_SEED").ok().and_then(|s| s.trim().parse::<i128>().ok()).map(|x| x as u64).unwrap_or(20_261_004);
+        let scale: f64 = std::env::var("VERIF_SCALE").ok().and_then(|s| s.parse().ok()).unwrap_or(1.0);
+        let n = ((if tier == Tier::Thorough { 150_000.0 } else { 6_000.0 }) * scale).max(50.0) as usize;
+        let v = checks::hist::export_plain(hc, tier, seed, n);
+        std::fs::write(&args[4], serde_json::to_string(&v).unwrap()).unwrap();
+        println!("exported {} histories ({} calls) for the unhooked-build replay", n, v["calls"]);
+        std::process::exit(0);
+    }
+    if id == "plain-merge" {
+        // plv plain-merge <Cxx> <summary.json> : add the unhooked-build replay's figures to the evidence file
+        let prop = args[2].as_str();
+        let summary: serde_json::Value = serde_json::from_str(&std::fs::read_to_string(&args[3]).unwrap_or_default()).unwrap_or(serde_json::json!({}));
+        let path = std::env::var("VERIF_EVIDENCE").unwrap_or_else(|_| format!("{root}/evidence/{prop}.json"));
+        if let Ok(t) = std::fs::read_to_string(&path) {
+            if let Ok(mut ev) = serde_json::from_str::<serde_json::Value>(&t) {
+                ev["coverage"]["unhooked_build_replay"] = summary.clone();
+                if let Some(e) = ev["coverage"]["evaluations"].as_u64() {
+                    ev["coverage"]["evaluations"] = serde_json::json!(e + summary["cases"].as_u64().unwrap_or(0));
+                }
+                if summary["verdict"] != "identical" {
+                    ev["violations"] = serde_json::json!(1);
+                }
+                std::fs::write(&path, serde_json::to_string_pretty(&ev).unwrap()).unwrap();
+            }
+        }
+        std::process::exit(0);
+    }
     if id == "witnesses" {
         // (re)write the hand-written witness replay files of the known findings
         let dir = format!("{root}/known");
@@ -292,6 +333,9 @@ fn main() {
         for f in files {
             let Ok(text) = std::fs::read_to_string(&f) else { continue };
             let Ok(v) = serde_json::from_str::<serde_json::Value>(&text) else { continue };
+            if v["engine"] == "plain_replay" {
+                continue; // replayed on the unhooked build by ./check
+            }
             regress_n += 1;
             if let Some(Err(reason)) = replay_check(id, &v, &cfg) {
                 if regress_fail.is_none() {
